@@ -221,7 +221,7 @@ def build_harness(name="l1", race=False):
 # they are compiled, scanned and counted together with the main file
 EXTRA_PROPERTY_FILES = {
     "C01": ["C01views", "RefFin"],
-    "C03": ["RefFin"],
+    "C03": ["RefFin", "Purge"],
     "C04": ["RefFin", "RefLat"],
     "C02": ["RefMod"],
     "C05": ["Refine", "RefMod"],
@@ -266,6 +266,29 @@ def _property_file_info(pid):
     axioms = sorted(set(re.findall(r"^([A-Z]\w*(?:\.\w+)+)\b", out.split("Axioms:", 1)[1], flags=re.M))) if "Axioms:" in out else []
     return {"ok": rc == 0, "theorems": theorems, "examples": examples, "closed": closed,
             "axioms": axioms, "log": out[-4000:]}
+
+def store_clause_info(facts_file):
+    """the interleaving model of the component store (coq/ConcStore.v, Properties/ConcStore.v) and the regenerated facts that
+    tie it to the code (Properties/<facts_file>.v over GenStore.v): -> (info for merge_evidence, tie string or None)"""
+    with Lock("build"):
+        run_translator()
+        coq_make(["Properties/ConcStore.vo", "Properties/%s.vo" % facts_file])
+        a = _property_file_info("ConcStore")
+        b = _property_file_info(facts_file)
+    info = {"ok": a["ok"] and b["ok"], "theorems": a["theorems"] + b["theorems"], "examples": a.get("examples", []) + b.get("examples", []),
+            "closed": a.get("closed", 0) + b.get("closed", 0), "axioms": sorted(set(a.get("axioms", [])) | set(b.get("axioms", [])))}
+    tie = None
+    if not a["ok"]:
+        tie = "coq/Properties/ConcStore.v no longer checks: " + a["log"][-300:]
+    elif not b["ok"]:
+        gen = ""
+        try: gen = open(os.path.join(COQ, "GenStore.v")).read()
+        except OSError: pass
+        false = re.findall(r"Definition (\w+) : bool := false", gen)
+        notes = re.findall(r"\(\* note: (.*?) \*\)", gen)
+        tie = ("obligation Properties/%s.v over the regenerated GenStore.v no longer checks (%s): the critical sections of EntityComponentStore are no longer the atomic "
+               "instructions the theorems of Properties/ConcStore.v are about%s" % (facts_file, ", ".join(false) or "see log", ("; " + "; ".join(notes)) if notes else ""))
+    return info, tie
 
 # ---------------------------------------------------------------- evidence / verdict
 def known_findings(pid):
